@@ -104,6 +104,28 @@ def replay_localapp(rec, m):
                 out = type(e).__name__
             now = os.getcwd()
             return now != cwd0, f"run() with a missing binary: {out}; cwd before={cwd0} after={now}"
+        if ("LocalApp.join" in ob and "TimeoutError" in ob) or "LocalApp.cancel" in ob or "Application.cancel" in ob:
+            import subprocess as sp
+            app = LProbe(os.path.join(fix, "sleeper"))
+            app.start()
+            proc = app.get_process()
+            try:
+                if "cancel" in ob:
+                    app.cancel()
+                    out = "cancel() returned"
+                else:
+                    app.join(timeout=0.3)
+                    out = "join(timeout=0.3) returned"
+            except Exception as e:
+                out = type(e).__name__
+            try:
+                proc.wait(timeout=3)
+                alive = False
+            except sp.TimeoutExpired:
+                alive = True
+                proc.kill()
+            bad = alive or app.cleanups != 1 or app._state != AppState.CANCELLED
+            return bad, f"never-ending child: {out}, state={app._state}, clean_up calls={app.cleanups}, child still running={alive}"
         if "LocalApp.join" in ob:
             app = LProbe("/bin/false" if "SubprocessError" in ob or "EvalError" in ob else "/bin/true")
             app.start()
